@@ -52,6 +52,7 @@ FirstLineIndentRemover(t, p) ==
 
 EmptyLineRemover(t, p) ==
   IF At(t, p) # NL THEN <<p, p>>
+  ELSE IF FindPrev(t, p, TRUE) = -1 /\ ~(\A i \in 1..p : IsBlank(t[i])) THEN <<p, p>>   \* the seam's own line is not empty
   ELSE LET nextNotEmpty == Then(FindNext(t, p, TRUE), LAMBDA x : FindNext(t, x + 1, TRUE)) = -1
            prevNotEmpty == Then(FindPrev(t, p, TRUE), LAMBDA x : FindPrev(t, x, TRUE)) = -1
        IN IF nextNotEmpty /\ prevNotEmpty THEN <<p, p + 1>> ELSE <<p, p>>
